@@ -45,6 +45,7 @@ def _case(draw):
     names = [g["name"] for g in spec["glyphs"]]
     for i, g in enumerate(spec["glyphs"]):
         g["width"] = abs(g.get("width", 0))
+        g["height"] = draw(st.sampled_from([0, 0, 1000, 880]))
         ks = draw(st.lists(st.sampled_from(["top", "_top", "bottom"]), unique=True, max_size=2))
         g["anchors"] = [{"name": k, "x": 10.5 * i, "y": draw(st.integers(0, 800))} for k in ks]
     spec["info"].update({"capHeight": 700, "xHeight": 500})
@@ -55,8 +56,14 @@ def _case(draw):
         fopts = {"OffsetX": draw(st.sampled_from([0, 10])), "ScaleY": draw(st.sampled_from([100, 120])), "Slant": draw(st.sampled_from([0, 5])), "Origin": draw(st.integers(0, 4))}
         if fopts == {"OffsetX": 0, "ScaleY": 100, "Slant": 0, "Origin": fopts["Origin"]}:
             fopts["OffsetX"] = 7
+        if draw(st.booleans()) and "space" not in names:
+            # an empty glyph (no outline, no anchors) with a vertical advance: only its metrics can change
+            spec["glyphs"].append({"name": "space", "width": 250, "height": draw(st.sampled_from([1000, 880])), "unicodes": [], "contours": [], "anchors": []})
+            names.append("space")
     elif which == "cu2qu":
         fopts = {"reverseDirection": draw(st.booleans())}
+        if draw(st.booleans()):
+            fopts["rememberCurveType"] = draw(st.booleans())
     elif which == "skip":
         fopts = {"skipExportGlyphs": draw(st.lists(st.sampled_from(names), unique=True, min_size=1, max_size=2))}
     elif which == "dotted":
@@ -86,6 +93,7 @@ def _case(draw):
         "incmode": incmode,
         "incnames": incnames,
         "inplace": draw(st.sampled_from([False, False, True])),
+        "glyphset": draw(st.sampled_from(["_GlyphSet", "_GlyphSet", "dict"])),   # the filter API takes any mapping of glyph names to glyphs
     }
 
 
@@ -138,10 +146,14 @@ def reach(gi, roots):
     return seen
 
 
+GS_KIND = ["_GlyphSet"]
+
+
 def glyphset_of(font, inplace):
     from ufo2ft.util import _GlyphSet
 
-    return _GlyphSet.from_layer(font, copy=not inplace)
+    gs = _GlyphSet.from_layer(font, copy=not inplace)
+    return dict(gs) if GS_KIND[0] == "dict" else gs
 
 
 def index(gs):
@@ -241,6 +253,9 @@ def filter_state(flt):
 
 def run_case(case, ctx):
     module = S.ufo_module(case["module"])
+    GS_KIND[0] = case.get("glyphset", "_GlyphSet")
+    if GS_KIND[0] == "dict":
+        ctx.label("plain-dict-glyph-set")
     specA, specB = case["spec"], second_spec(case)
     flt, plain_cls, kw = make_filter(case)
     inplace = case["inplace"]
